@@ -157,6 +157,42 @@ def r1(ctx: Ctx) -> None:
             continue
         cands.append(b)
         ctx._c08_pins.append((b, b.ast.left if r.ast in lo["calls"] else b.ast.comparators[0]))  # type: ignore[attr-defined]
+    # the same comparison carried by a flag: `unmoved = validated is None or name == validated_file; if not unmoved: raise`
+    for b in g.nodes:
+        if b.kind != "branch" or b.ast is None:
+            continue
+        neg = isinstance(b.ast, ast.UnaryOp) and isinstance(b.ast.op, ast.Not)
+        fl = b.ast.operand if neg else b.ast
+        if not isinstance(fl, ast.Name):
+            continue
+        defs_ = ctx.rd(f).reaching(b.id, fl.id)
+        if len(defs_) != 1:
+            continue
+        dn = g.nodes[next(iter(defs_))]
+        v = dn.ast.value if isinstance(dn.ast, ast.Assign) else None
+        parts = v.values if isinstance(v, ast.BoolOp) and isinstance(v.op, ast.Or) else ([v] if isinstance(v, ast.Compare) else [])
+        eqs = [p_ for p_ in parts if isinstance(p_, ast.Compare) and len(p_.ops) == 1 and isinstance(p_.ops[0], ast.Eq)]
+        guards = [p_ for p_ in parts if p_ not in eqs]
+        if len(eqs) != 1 or not all(isinstance(p_, ast.Compare) and len(p_.ops) == 1 and isinstance(p_.ops[0], ast.Is)
+                                    and isinstance(p_.comparators[0], ast.Constant) and p_.comparators[0].value is None for p_ in guards):
+            continue
+        eq = eqs[0]
+        lo = sl.origins(eq.left, dn.id)
+        ro = sl.origins(eq.comparators[0], dn.id)
+        if (r.ast in lo["calls"]) == (r.ast in ro["calls"]):
+            continue
+        other = ro if r.ast in lo["calls"] else lo
+        if not ({id(c) for c in other["calls"]} & {id(c) for c in cur_org["calls"]}):
+            continue
+        t = edge_target(g, b, "true" if neg else "false")  # the flag is False: the pointer moved
+        if t is None:
+            continue
+        reach = reachable_from(g, t, NORMAL)
+        rs = [g.nodes[x] for x in reach if g.nodes[x].kind == "raise"]
+        if not rs or cp.id in reach or any(x.raised != "ConcurrentModificationException" for x in rs):
+            continue
+        cands.append(b)
+        ctx._c08_pins.append((b, eq.left if r.ast in lo["calls"] else eq.comparators[0]))  # type: ignore[attr-defined]
     if cands:
         # every path r -> cp passes a candidate, except through an edge where the parsed hint is None / a guard on
         # the validated-name being None
